@@ -24,6 +24,8 @@ type Set struct {
 	// Failing lists members whose body was chosen from the failing list (analysis of them, and
 	// of their callers, is expected to fail; the monitors do not rely on this list).
 	Failing []string
+	// MustFail lists members whose body is exactly one failing construct with no calls around it.
+	MustFail []string
 	Modes   []string // failure modes used
 }
 
@@ -34,11 +36,23 @@ var failBodies = map[string][]string{
 	"non-text-end":       {`<script>var a = 1;`, `<a href="/x`, `<!-- unfinished`, `<p title='`, `<textarea>abc`, `<style>a{}`, `<b `},
 	"disallowed-position": {`<a href={{$.S0}}>x</a>`, `<p onclick="{{$.S0}}">x</p>`, `<x-foo>{{$.S0}}</x-foo>`, `<p {{$.S0}}="y">x</p>`, `<a unknown="{{$.S1}}">x</a>`, `<object data="{{$.S0}}"></object>`, `<p style=color:{{$.S0}}>`},
 	"unsafe-url-prefix":  {`<a href="javascript:{{$.S0}}">x</a>`, `<a href="java{{$.S0}}">x</a>`, `<a href="{{if $.C0}}/a/{{else}}/b?q={{end}}{{$.S0}}">x</a>`, `<a href="/x y/{{$.S0}}">x</a>`, `<a href="/p?q=%{{$.S0}}">x</a>`, `<a href="/p&amp{{$.S0}}">x</a>`, `<script src="http://h/{{$.S0}}"></script>`, `<a href="{{$.S0}}{{$.S1}}">x</a>`, `<a href="{{$.S0}}:x">y</a>`},
+	"co-recursion":       {`{{template "cy" $}}"></a>`, `{{template "cz" $}}x"></a>`, `<p>{{template "cy" $}}</p>`},
 	"empty-callee":       {`a{{template "emptyT" $}}b`, `<p>{{template "emptyT"}}</p>`},
 	"undefined-callee":   {`a{{template "nope" $}}b`, `<p>{{template "missing"}}</p>`},
 	"predefined-escaper": {`{{$.S0 | html | print}}`, `<a title={{$.S0 | html}}>`},
 	"recursion":          {`{{if $.N}}{{template "SELF" $.N}}{{end}}<a `, `{{with $.N}}{{template "SELF" .}}{{end}}<p title="`},
 	"bad-html":           {`<a href='x"y={{$.S0}}`, `<p title=a"b>{{$.S0}}`, `<a b='c'"d>`},
+}
+
+// FailBody returns a random body whose contextual analysis fails.
+func FailBody(r *core.Rng) string {
+	modes := []string{}
+	for m := range failBodies {
+		modes = append(modes, m)
+	}
+	sortStrings(modes)
+	b := r.Pick(failBodies[modes[r.Intn(len(modes))]])
+	return strings.ReplaceAll(b, "SELF", "root")
 }
 
 // RuntimeFailBodies produce output first and then a run-time sanitizer error.
@@ -58,6 +72,7 @@ var wildBodies = []string{
 	"<a href=\"{{$.S0}}\" href=\"{{$.S1}}\">", "<<<>>>", "<a <b> c>", "<a =>", "</>", "<!>", "<!-", "<!--", "-->", "<a b=\"", "<a b='", "<a b=", "<a b", "<a ", "<a", "<", "&", "&#", "<script>`${{{$.S0}}}`</script>", "<script>`</script>", "<script>${`</script>",
 	"<textarea><script>{{$.S0}}</textarea>", "<title>{{$.S0}}", "<svg><script>{{$.S0}}</script></svg>", "<math><mi>{{$.S0}}</mi></math>", "<plaintext>{{$.S0}}", "<xmp>{{$.S0}}</xmp>", "<iframe srcdoc=\"{{$.S0}}\">", "<a href=\"{{$.S0}}\"\x00>", "\x00{{$.S0}}\x00", "\xff\xfe{{$.S0}}",
 	`{{template "root" $}}`,
+	`<!-- a --! b -->{{$.S0}}`, `<!-- x --!{{$.S0}}-->`, `<!--{{$.S0}}--!`, `<!-- --!`, `<!----!--->x`, `<p><!-- c --! --!> d -->{{$.S0}}</p>`,
 }
 
 // GenSet generates a template set.
@@ -99,6 +114,9 @@ func GenSet(r *core.Rng, o SetOpts) Set {
 		defs.WriteString(`{{define "` + name + `"}}` + body + `{{end}}`)
 		s.Helpers = append(s.Helpers, name)
 	}
+	// co-recursive helper pairs: one whose end context cannot be computed, one that is fine
+	defs.WriteString(`{{define "cy"}}{{with $.N}}{{template "cz" .}}{{end}}<a title="{{end}}{{define "cz"}}{{template "cy" $}}{{end}}`)
+	defs.WriteString(`{{define "cy2"}}{{with $.N}}{{template "cz2" .}}{{end}}<i>{{$.S0}}</i>{{end}}{{define "cz2"}}<b>{{template "cy2" $}}</b>{{end}}`)
 	failSet := map[int]string{}
 	modes := []string{}
 	for m := range failBodies {
@@ -113,12 +131,18 @@ func GenSet(r *core.Rng, o SetOpts) Set {
 		name := fmt.Sprintf("m%d", i)
 		s.Members = append(s.Members, name)
 		var body string
+		pure := false
 		switch {
 		case failSet[i] != "":
 			body = r.Pick(failBodies[failSet[i]])
 			body = strings.ReplaceAll(body, "SELF", name)
 			if r.Intn(2) == 0 {
 				body = g.items(1) + body
+			} else {
+				// the body is exactly the failing construct, and nothing is called around it: by
+				// construction its analysis must fail whatever else the set contains
+				pure = true
+				s.MustFail = append(s.MustFail, name)
 			}
 			s.Failing = append(s.Failing, name)
 			s.Modes = append(s.Modes, failSet[i])
@@ -144,8 +168,23 @@ func GenSet(r *core.Rng, o SetOpts) Set {
 		default:
 			body = g.items(1 + r.Intn(3))
 		}
+		if len(leafs) > 0 && failSet[i] == "" && r.Intn(5) == 0 {
+			l := leafs[r.Intn(len(leafs))]
+			good := []string{`<p dir="{{template "` + l + `" $.S1}}">x</p>`, `<a href="{{template "` + l + `" $.S2}}">x</a>`, `<img srcset="{{template "` + l + `" $.S2}}">`, `<a target="{{template "` + l + `" $.S1}}">x</a>`}
+			bad := []string{`<p dir="{{$.S0}}{{template "` + l + `" $.S1}}">x</p>`, `<a href="{{$.S0}}{{template "` + l + `" $.S1}}">x</a>`, `<img srcset="{{$.S0}}{{template "` + l + `" $.S1}}">`, `<a target="x{{template "` + l + `" $.S1}}">x</a>`, `<a href="java{{template "` + l + `" $.S1}}">x</a>`}
+			if r.Bool() {
+				body = r.Pick(good)
+			} else {
+				body = r.Pick(bad)
+				s.Failing = append(s.Failing, name)
+				s.Modes = append(s.Modes, "call-after-action")
+			}
+		}
+		if r.Intn(12) == 0 && failSet[i] == "" && !pure {
+			body += `{{template "cz2" $}}`
+		}
 		// calls: earlier members (acyclic) and shared helpers
-		for k := r.Intn(3); k > 0; k-- {
+		for k := r.Intn(3); k > 0 && !pure; k-- {
 			var call string
 			if i > 0 && r.Intn(2) == 0 {
 				call = fmt.Sprintf(`{{template "m%d" $}}`, r.Intn(i))
